@@ -815,3 +815,39 @@ mod tests {
   }
 }
 
+
+// Verification hook (no behaviour change): opaque snapshot/restore of the
+// mapper state and a Debug fingerprint of it, so that the real step function
+// can be explored state by state.
+#[cfg(ellbur_totalmapper_verif)]
+pub struct VerifSnapshot {
+  state: State
+}
+
+#[cfg(ellbur_totalmapper_verif)]
+fn verif_copy_state(s: &State) -> State {
+  State {
+    input_pressed_keys: s.input_pressed_keys.clone(),
+    active_mappings: s.active_mappings.clone(),
+    pass_through_keys: s.pass_through_keys.clone(),
+    mapped_output_keys: s.mapped_output_keys.clone(),
+    mapped_absorbed_keys: s.mapped_absorbed_keys.clone(),
+    absorbing_trigger: s.absorbing_trigger.clone(),
+    repeating_trigger: s.repeating_trigger.clone()
+  }
+}
+
+#[cfg(ellbur_totalmapper_verif)]
+impl Mapper {
+  pub fn verif_snapshot(&self) -> VerifSnapshot {
+    VerifSnapshot { state: verif_copy_state(&self.state) }
+  }
+  
+  pub fn verif_restore(&mut self, snapshot: &VerifSnapshot) {
+    self.state = verif_copy_state(&snapshot.state);
+  }
+  
+  pub fn verif_fingerprint(&self) -> String {
+    format!("{:?}", self.state)
+  }
+}
